@@ -50,7 +50,9 @@ def scaled(x, factor):
         return OFFGRID
     y = x * factor
     r = round(y)
-    if abs(y - r) > 1e-9 * max(1.0, abs(y)) or abs(r) > 2000000000:
+    # (nothing a composite is asked for or reports in these cases exceeds 100: a larger value is
+    #  wrong whatever it is - and must not make TLC's 32-bit arithmetic overflow)
+    if abs(y - r) > 1e-9 * max(1.0, abs(y)) or abs(r) > 101 * factor:
         return OFFGRID
     return int(r)
 
